@@ -90,8 +90,8 @@ def check_ports(arg):
             if toks[i] in ("eq", "neq") and platform == "nxos" and len(operands) > 1:
                 bad("platform-syntax", f"line {l!r} lists {len(operands)} ports after `{toks[i]}`: NX-OS takes one")
             # port keywords must be the platform's own
-            from cisco_acl.port_name import PortName
-            known = PortName(protocol="tcp", platform=platform, version="0").names()
+            from spec import ref_tables as R_
+            known = R_.REF_KEYWORDS[("UDP" if tref.proto == 17 else "TCP") + "_NAME_PORT__" + {"ios": "IOS_16", "nxos": "NXOS", "asa": "ASA"}[platform]]
             for t in operands:
                 if not t.isdigit() and t not in known:
                     bad("platform-syntax", f"line {l!r} uses the port keyword {t!r}, which {platform} does not have")
